@@ -2,7 +2,8 @@
 extension grammar (4.2) in which every construct that is stashed during conversion (code spans, escapes, links, images,
 references, autolinks, entities, inline tags, footnote references, wikilinks, attribute lists, fences, raw blocks)
 is nested in every slot another construct offers (link text, destination, title, alt, label, heading, cell, item, term,
-definition, footnote body, admonition title), plus soups dense in the same tokens.  Everything from `rng`.
+definition, footnote body, admonition title; in the lazy continuation line of a list item that begins with a heading or a rule, inside
+emphasis nested three deep by one match -- `nested3`), plus soups dense in the same tokens.  Everything from `rng`.
 Inputs never contain STX/ETX and never spell a placeholder stem."""
 from . import common as G
 
@@ -83,6 +84,16 @@ def inline(rng, depth=0, html=True, ext=True, nobr=False):
     return rng.choice(['"q"', "'s'", 'a -- b', 'a --- b', '...', '<<g>>' if html else '--', "it's", 'ABBR', 'HTML'])
 
 
+def nested3(rng, html=True, ext=True):
+    """strong > em > strong (or em > strong > em) written so that ONE emphasis match nests all three, a stashed construct innermost"""
+    x = rng.choice(['`make`', '`a_b`', '\\*', '\\_', '[l](u)', '![i](s)', '[l](u "t")', '``c`d``', inline(rng, 2, html, ext, True)])
+    d = rng.choice('*_')
+    k = rng.randrange(3)
+    if k == 0: return '%s%ssee %sthe %s%s%s tool%s%s here%s%s%s' % (d, d, d, d, d, x, d, d, d, d, d)          # **see *the **X tool** here***
+    if k == 1: return '%ssee %s%sthe %s%s tool%s here%s%s%s' % (d, d, d, d, x, d, d, d, d)                      # *see **the *X tool* here***
+    return '%s%s%s%s %s%s%s%s%s%s' % (d, d, d, x, w(rng), d, d, w(rng), d, d) if rng.random() < 0.5 else '%s%s%s%s%s%s%s' % (d, d, d, x, d, d, d)
+
+
 def para(rng, html=True, ext=True, lo=1, hi=4, nobr=False):
     return rng.choice([' ', ' ', '', '\n']).join(inline(rng, 0, html, ext, nobr) for _ in range(rng.randint(lo, hi))).replace('\n\n', '\n')
 
@@ -113,6 +124,12 @@ def block(rng, depth=0, html=True, ext=True):
         loose = rng.random() < 0.4
         items = []
         for _ in range(rng.randint(1, 3)):
+            if rng.random() < 0.12:
+                # an item that BEGINS with a heading (or a rule) and continues lazily on the next line: the continuation becomes the TAIL of a
+                # block-level child of the item; in it emphasis nested three deep with a stashed construct innermost
+                head = rng.choice(['#' * rng.randint(1, 3) + ' ' + one(), '# T', '***', '---'])
+                items.append(m + head + '\n' + rng.choice(['', '  ', '   ']) + (nested3(rng, html, ext) if rng.random() < 0.7 else one()))
+                continue
             body = blocks(rng, depth + 1, html, ext, rng.choice([1, 1, 2]))
             ls = body.split('\n')
             items.append(m + ls[0] + ''.join('\n' + ('    ' + x if x.strip() else x) for x in ls[1:]))
@@ -140,7 +157,7 @@ def block(rng, depth=0, html=True, ext=True):
         return '!!! ' + rng.choice(['note', 'warning cls', 'note "%s"' % one().replace('"', ''), 'danger ""']) + '\n    ' + blocks(rng, depth + 1, html, ext, 1).replace('\n', '\n    ')
     if k == 5:
         if rng.random() < 0.08:    # a term that also occurs INSIDE placeholders (code point of an escaped character, stash index, `amp`): F-C10-6
-            return '*[%s]: t' % rng.choice(['42', '0', '1', '95', 'amp', '92'])
+            return '*[%s]: t' % rng.choice(['42', '0', '1', '95', 'amp', '92', ':', ':0', ': '])
         return rng.choice(['*[ABBR]: Abbreviation', '*[HTML]: Hyper *Text* "ML" &amp;', '*[a]: t', '*[foo]: `c` <b>']) if html else '*[ABBR]: Abbreviation "q" &amp;'
     if k == 6:
         return rng.choice(['[TOC]', '[TOC]', '[TOC] x'])
